@@ -5,6 +5,13 @@ Each <class>.diff is an independent -p1 unified diff against /repo HEAD."""
 import os, subprocess, sys, tempfile, shutil
 
 HERE = os.path.dirname(os.path.abspath(__file__))
+BASE = os.environ.get('BASE', '44ff429')  # /repo revision the diffs are made against ('WORK' = working tree)
+
+
+def src(rel):
+    if BASE == 'WORK':
+        return open('/repo/' + rel).read()
+    return subprocess.run(['git', '-C', '/repo', 'show', BASE + ':' + rel], capture_output=True, text=True, check=True).stdout
 
 FAILED_UPDATE_BLOCK = '''\tif orig != c && alpha < 0 {
 \t\t// A downdate may fail: work on a copy so that the receiver is left
@@ -85,7 +92,7 @@ def make(classes):
     for cls in classes:
         for rel, old, new in CLASSES[cls]:
             if rel not in files:
-                files[rel] = open('/repo/' + rel).read()
+                files[rel] = src(rel)
             cur = files[rel]
             if cur.count(old) != 1:
                 # the failed-update block and the reset fix touch adjacent lines: retry with the other variant
@@ -98,8 +105,8 @@ def make(classes):
             files[rel] = cur.replace(old, new)
     out = ''
     for rel, new in files.items():
-        src = open('/repo/' + rel).read()
-        for side, content in (('a', src), ('b', new)):
+        orig = src(rel)
+        for side, content in (('a', orig), ('b', new)):
             p = os.path.join(tmp, side, rel)
             os.makedirs(os.path.dirname(p), exist_ok=True)
             open(p, 'w').write(content)
@@ -113,8 +120,23 @@ def make(classes):
     return out
 
 
+def applicable(cls):
+    """a class still applies if every 'old' text is present exactly once and the 'new' text is absent"""
+    for rel, old, new in CLASSES[cls]:
+        cur = src(rel)
+        if cur.count(old) != 1 or new in cur:
+            return False
+    return True
+
+
 if __name__ == '__main__':
-    for cls in CLASSES:
-        open(os.path.join(HERE, cls + '.diff'), 'w').write(make([cls]))
-    open(os.path.join(HERE, 'all_fixes.diff'), 'w').write(make(list(CLASSES)))
-    print('wrote', len(CLASSES), 'class diffs and all_fixes.diff')
+    # default: regenerate every <class>.diff against the revision the findings were reported on (44ff429).
+    # BASE=WORK python3 mkfixes.py: write remaining_fixes.diff with the classes that are still unfixed in /repo.
+    if BASE == 'WORK':
+        todo = [cls for cls in CLASSES if applicable(cls)]
+        open(os.path.join(HERE, 'remaining_fixes.diff'), 'w').write(make(todo))
+        print('still unfixed in the /repo working tree:', todo)
+    else:
+        for cls in CLASSES:
+            open(os.path.join(HERE, cls + '.diff'), 'w').write(make([cls]))
+        print('wrote', len(CLASSES), 'class diffs against', BASE)
